@@ -229,6 +229,7 @@ type Snapshot struct {
 	OwedDelta [][2]string // denom, Dec raw delta of (outstanding + community pool) over this end-block
 	OwedVal   [][3]string // validator, denom, Dec raw delta of its outstanding rewards over this end-block
 	OwedComm  [][2]string // denom, Dec raw delta of the community pool over this end-block
+	BooksMixed bool       // x/staking removed a validator in this end-block: the distribution hook moved its rewards in the same call
 	Invariant string      // first broken crisis invariant, "" if all hold
 	AppHash   string
 }
@@ -744,6 +745,11 @@ func (e *Exec) Run() []Obs {
 			snap := e.snapshot()
 			snap.OwedDelta = deltaPairs(before.Tot, after.Tot)
 			snap.OwedComm = deltaPairs(before.Comm, after.Comm)
+			for k := range before.Val {
+				if _, still := after.Val[k]; !still {
+					snap.BooksMixed = true
+				}
+			}
 			var vks []string
 			for k := range after.Val {
 				vks = append(vks, k)
